@@ -126,6 +126,38 @@ pub fn run(ctx: &Ctx, replay: Option<&J>) -> i32 {
             probes.push(format!(" {}", id));
         }
     }
+    // every spelling obtained by replacing one character by another character with the same lowercase
+    // form (compatibility letters such as the Kelvin, Ohm and Angstrom signs lowercase to k, ω and å)
+    {
+        let mut by_lower: std::collections::HashMap<String, Vec<char>> = Default::default();
+        for cp in 0u32..0x3000 {
+            if let Some(c) = char::from_u32(cp) {
+                by_lower.entry(c.to_lowercase().collect()).or_default().push(c);
+            }
+        }
+        for cp in [0x2126u32, 0x212a, 0x212b] {
+            let c = char::from_u32(cp).unwrap();
+            let e = by_lower.entry(c.to_lowercase().collect()).or_default();
+            if !e.contains(&c) {
+                e.push(c);
+            }
+        }
+        let mut extra = vec![];
+        for u in &all {
+            for id in u.identifiers {
+                let cs: Vec<char> = id.chars().collect();
+                for (i, c) in cs.iter().enumerate() {
+                    let key: String = c.to_lowercase().collect();
+                    for alt in by_lower.get(&key).into_iter().flatten().filter(|a| *a != c) {
+                        let mut v = cs.clone();
+                        v[i] = *alt;
+                        extra.push(v.into_iter().collect::<String>());
+                    }
+                }
+            }
+        }
+        probes.extend(extra);
+    }
     probes.extend(["", " ", "unknownunit", "meter s", "m/s/s", "K", "k", "C", "F", "MM", "T", "M", "PA", "pA"].iter().map(|s| s.to_string()));
     probes.sort();
     probes.dedup();
@@ -463,7 +495,7 @@ pub fn run(ctx: &Ctx, replay: Option<&J>) -> i32 {
     finish(
         ctx,
         "exploration",
-        "the whole unit table: every identifier (plus upper/lower/capitalised/suffixed/padded variants) for resolution; every unit x every alias x every same-category partner x magnitudes for alias equivalence; every ordered pair and same-category triple x magnitudes for the laws; every (prefixed long name, base long name) pair against an independent prefix table; distinct = one key per identifier probe / unit / prefix pair",
+        "the whole unit table: every identifier (plus upper/lower/capitalised/suffixed/padded variants and every single-character replacement by another character with the same lowercase form, e.g. the Kelvin / Ohm / Angstrom signs) for resolution; every unit x every alias x every same-category partner x magnitudes for alias equivalence; every ordered pair and same-category triple x magnitudes for the laws; every (prefixed long name, base long name) pair against an independent prefix table; distinct = one key per identifier probe / unit / prefix pair",
         true,
         None,
     )
